@@ -356,10 +356,44 @@ theorem div_bounds (a seg : Nat) (hseg : 0 < seg) :
   have hcomm : seg * (a / seg) = a / seg * seg := Nat.mul_comm _ _
   omega
 
-theorem readSegs_spec (content : Bytes) (seg off size : Nat) (hseg : 0 < seg) (hsize : 0 < size)
-    (_hlen : off + size ≤ content.length) :
+theorem le_numSegments_mul (len seg : Nat) (hseg : 0 < seg) : len ≤ numSegments len seg * seg := by
+  obtain ⟨_, g'⟩ := geom_numSegments len seg hseg
+  rcases g' with ⟨_, h0⟩ | ⟨hn0, hl, ht0, hts⟩
+  · omega
+  · have e : (numSegments len seg - 1 + 1) * seg = (numSegments len seg - 1) * seg + seg := Nat.succ_mul _ _
+    have e' : numSegments len seg - 1 + 1 = numSegments len seg := by omega
+    rw [e'] at e; omega
+
+/-- a position inside the data lies in a segment that exists -/
+theorem div_lt_numSegments (len seg x : Nat) (hseg : 0 < seg) (hx : x < len) : x / seg < numSegments len seg := by
+  obtain ⟨s1, _, _⟩ := div_bounds x seg hseg
+  have := le_numSegments_mul len seg hseg
+  apply Nat.lt_of_mul_lt_mul_right (a := seg); omega
+
+theorem length_segmentOf (content : Bytes) (seg i : Nat) (hseg : 0 < seg) (hi : i < numSegments content.length seg) :
+    (segmentOf content seg i).length
+      = if i + 1 = numSegments content.length seg then tailSize content.length seg else seg := by
+  obtain ⟨he, hlt⟩ := geom_end (geom_numSegments content.length seg hseg) i hi
+  have hs : (i + 1) * seg = i * seg + seg := Nat.succ_mul _ _
+  simp only [segmentOf, length_slice]
+  unfold want at he
+  split at he <;> rename_i hc
+  · rw [if_pos hc]; omega
+  · rw [if_neg hc]; omega
+
+/-- `_decode_blocks` gives back the stored segment: the `size_to_use` cut removes exactly the decoder's
+    padding (it would not if the tail test looked at anything but `segnum == num_segments - 1`). -/
+theorem decodeBlocks_eq (content : Bytes) (seg k i : Nat) (hseg : 0 < seg)
+    (hi : i < numSegments content.length seg) :
+    decodeBlocks content seg k i = segmentOf content seg i := by
+  have hl := length_segmentOf content seg i hseg hi
+  simp only [decodeBlocks, decodedJoined]
+  rw [← hl, List.take_append_of_le_length (Nat.le_refl _), List.take_length]
+
+theorem readSegs_spec (content : Bytes) (seg k off size : Nat) (hseg : 0 < seg) (hsize : 0 < size)
+    (hlen : off + size ≤ content.length) :
     ∀ c cur, off / seg ≤ cur → cur + c = (off + size - 1) / seg + 1 →
-      readSegs content seg off size (off / seg) ((off + size - 1) / seg) cur c
+      readSegs content seg k off size (off / seg) ((off + size - 1) / seg) cur c
         = slice content (max off (cur * seg)) (off + size) := by
   obtain ⟨s1, s2, s3⟩ := div_bounds off seg hseg
   obtain ⟨l1, l2, l3⟩ := div_bounds (off + size - 1) seg hseg
@@ -376,7 +410,10 @@ theorem readSegs_spec (content : Bytes) (seg off size : Nat) (hseg : 0 < seg) (h
     have hcs : (cur + 1) * seg = cur * seg + seg := Nat.succ_mul _ _
     have hm1 := Nat.mul_le_mul_right seg h1
     have hm2 := Nat.mul_le_mul_right seg (show cur ≤ (off + size - 1) / seg by omega)
-    simp only [readSegs, segmentOf]
+    have hcn : cur < numSegments content.length seg := by
+      have := le_numSegments_mul content.length seg hseg
+      apply Nat.lt_of_mul_lt_mul_right (a := seg); omega
+    simp only [readSegs, decodeBlocks_eq content seg k cur hseg hcn, segmentOf]
     -- the piece of this segment
     have piece : (if cur = off / seg then
           (if cur = (off + size - 1) / seg then
@@ -600,19 +637,30 @@ theorem take_slice_drop (l : Bytes) (A B : Nat) (h : A ≤ B) :
   rw [e, e2, List.take_append_drop, List.take_append_drop]
 
 
-theorem mdmfUpdate_splice (cfg : Cfg) (v : Version) (off : Nat) (data : Bytes)
-    (hk : 0 < cfg.k) (hm : 0 < cfg.maxSeg)
-    (hsegv : v.segsize = nextMultiple cfg.maxSeg cfg.k)
-    (hpos : 0 < v.content.length) (hoff : off ≤ v.content.length)
-    (hstart : off / v.segsize < numSegments v.content.length v.segsize) :
-    mdmfUpdate cfg v off data
-      = .ok { fmt := .mdmf, segsize := v.segsize, content := splice v.content off data } := by
-  have hseg : 0 < v.segsize := by
-    have := le_nextMultiple cfg.maxSeg cfg.k hk; omega
-  obtain ⟨fmt, seg, old⟩ := v
-  simp only at hsegv hpos hoff hstart hseg ⊢
-  simp only [mdmfUpdate, pubSegsize_mdmf, ← hsegv, Nat.ne_of_gt hseg, if_false, hoff, not_true_eq_false,
-    Nat.ne_of_gt hpos, hstart, updateRange]
+/-- **The updater and the publisher agree.**  With `start_segment`/`end_segment` as
+    `_do_update_update` computes them (the two old segments handed to TransformingUploadable) and
+    `end_segment` as `Publish.setup_encoding_parameters` computes it (the number `c` of segments pushed),
+    the publisher stays inside the new file, covers the whole written range, and reads exactly the
+    segments of the splice. -/
+theorem updater_publisher_agree (old data : Bytes) (seg off : Nat) (hseg : 0 < seg)
+    (hpos : 0 < old.length) (hoff : off ≤ old.length)
+    (hstart : off / seg < numSegments old.length seg) :
+    ∃ c, (pubEndSegment (max old.length (off + data.length)) seg (off + data.length) + 1
+          - ((off / seg : Nat) : Int)).toNat = c
+      ∧ off / seg + c ≤ numSegments (max old.length (off + data.length)) seg
+      ∧ off + data.length ≤ (off / seg + c) * seg
+      ∧ pushLoop TU.read (numSegments (max old.length (off + data.length)) seg) seg
+          (tailSize (max old.length (off + data.length)) seg) (off / seg) c
+          (TU.init data off seg (segmentOf old seg (off / seg))
+            (if (if off + data.length < old.length then (((off + data.length : Nat) : Int) - 1).ediv (seg : Int)
+            else ((off / seg : Nat) : Int)) < 0 then []
+        else segmentOf old seg
+          (if off + data.length < old.length then (((off + data.length : Nat) : Int) - 1).ediv (seg : Int)
+            else ((off / seg : Nat) : Int)).toNat))
+        = some ((List.range' (off / seg) c).map fun j =>
+            slice (splice old off data) (j * seg)
+              (j * seg + want (numSegments (max old.length (off + data.length)) seg) seg
+                (tailSize (max old.length (off + data.length)) seg) j)) := by
   -- geometry of the old and of the new file
   have gN := geom_numSegments old.length seg hseg
   have gD := geom_numSegments (max old.length (off + data.length)) seg hseg
@@ -667,8 +715,7 @@ theorem mdmfUpdate_splice (cfg : Cfg) (v : Version) (off : Nat) (data : Bytes)
       have : off / seg + (n - off / seg) = n := by omega
       rw [this]; omega
   obtain ⟨c, hc, hcn, hcX, hcE⟩ := hcnt
-  rw [hc]
-  -- the loop
+  refine ⟨c, hc, hcn, hcX, ?_⟩
   have hloop := tu_pushLoop old data seg off hseg hoff
     (if (if off + data.length < old.length then (((off + data.length : Nat) : Int) - 1).ediv (seg : Int)
           else ((off / seg : Nat) : Int)) < 0 then []
@@ -708,10 +755,56 @@ theorem mdmfUpdate_splice (cfg : Cfg) (v : Version) (off : Nat) (data : Bytes)
           = ((((off + data.length - 1) / seg : Nat)) : Int) := rfl
       rw [hediv, if_neg (by omega), Int.toNat_natCast, segmentOf, hjE])
   rw [hn, ht] at hloop
-  rw [hloop]
+  exact hloop
+
+theorem mdmfUpdate_splice (cfg : Cfg) (v : Version) (off : Nat) (data : Bytes)
+    (hk : 0 < cfg.k) (hm : 0 < cfg.maxSeg)
+    (hsegv : v.segsize = nextMultiple cfg.maxSeg cfg.k)
+    (hpos : 0 < v.content.length) (hoff : off ≤ v.content.length)
+    (hstart : off / v.segsize < numSegments v.content.length v.segsize) :
+    mdmfUpdate cfg v off data
+      = .ok { fmt := .mdmf, segsize := v.segsize, content := splice v.content off data } := by
+  have hseg : 0 < v.segsize := by
+    have := le_nextMultiple cfg.maxSeg cfg.k hk; omega
+  obtain ⟨fmt, seg, old⟩ := v
+  simp only at hsegv hpos hoff hstart hseg ⊢
+  -- `_decode_blocks` returns the two boundary segments as stored
+  have hdS := decodeBlocks_eq old seg cfg.k (off / seg) hseg hstart
+  have hdE : (if (if off + data.length < old.length then (((off + data.length : Nat) : Int) - 1).ediv (seg : Int)
+          else ((off / seg : Nat) : Int)) < 0 then []
+      else decodeBlocks old seg cfg.k
+        (if off + data.length < old.length then (((off + data.length : Nat) : Int) - 1).ediv (seg : Int)
+          else ((off / seg : Nat) : Int)).toNat)
+      = (if (if off + data.length < old.length then (((off + data.length : Nat) : Int) - 1).ediv (seg : Int)
+          else ((off / seg : Nat) : Int)) < 0 then []
+      else segmentOf old seg
+        (if off + data.length < old.length then (((off + data.length : Nat) : Int) - 1).ediv (seg : Int)
+          else ((off / seg : Nat) : Int)).toNat) := by
+    by_cases hX : off + data.length < old.length
+    · simp only [hX, if_true]
+      rcases Nat.eq_zero_or_pos (off + data.length) with h0 | h0
+      · have : ((((off + data.length : Nat) : Int) - 1).ediv (seg : Int)) < 0 := by
+          rw [h0]
+          show ((((0 : Nat) : Int) - 1) / (seg : Int)) < 0
+          exact Int.ediv_lt_of_lt_mul (by omega) (by omega)
+        rw [if_pos this, if_pos this]
+      · have hcast : (((off + data.length : Nat) : Int) - 1) = (((off + data.length - 1 : Nat)) : Int) := by omega
+        have hediv : (((off + data.length - 1 : Nat)) : Int).ediv (seg : Int)
+            = ((((off + data.length - 1) / seg : Nat)) : Int) := rfl
+        have hnn : ¬ ((((off + data.length - 1) / seg : Nat)) : Int) < 0 := Int.not_lt.mpr (Int.natCast_nonneg _)
+        rw [hcast, hediv, if_neg hnn, if_neg hnn, Int.toNat_natCast,
+          decodeBlocks_eq old seg cfg.k _ hseg (div_lt_numSegments _ _ _ hseg (by omega))]
+    · simp only [hX, if_false]
+      have hnn : ¬ (((off / seg : Nat)) : Int) < 0 := Int.not_lt.mpr (Int.natCast_nonneg _)
+      rw [if_neg hnn, if_neg hnn, Int.toNat_natCast, hdS]
+  simp only [mdmfUpdate, pubSegsize_mdmf, ← hsegv, Nat.ne_of_gt hseg, if_false, hoff, not_true_eq_false,
+    Nat.ne_of_gt hpos, hstart, updateRange, hdS, hdE]
+  obtain ⟨s1, _, _⟩ := div_bounds off seg hseg
+  obtain ⟨c, hc, hcn, hcX, hloop⟩ := updater_publisher_agree old data seg off hseg hpos hoff hstart
+  rw [hc, hloop]
   simp only
-  have hfl := flatten_segs (splice old off data) seg n tail
-    (by rw [length_splice _ _ _ hoff]; exact gD) c (off / seg) hcn
+  have hfl := flatten_segs (splice old off data) seg _ _
+    (by rw [length_splice _ _ _ hoff]; exact geom_numSegments _ seg hseg) c (off / seg) hcn
   rw [hfl]
   have h1 : List.take (off / seg * seg) old = (splice old off data).take (off / seg * seg) := by
     have := slice_splice_before old data off 0 (off / seg * seg) hoff s1
@@ -892,18 +985,50 @@ theorem run_refines (cfg : Cfg) (hk : 0 < cfg.k) (hm : 0 < cfg.maxSeg) :
       simp only [List.map_cons, List.zip_cons_cons, specRun, if_true]
       rw [ih st' h2, h1]
 
-theorem read_spec (v : Version) (off size : Nat) (hseg : 0 < v.segsize) (hsize : 0 < size)
+theorem read_spec (k : Nat) (v : Version) (off size : Nat) (hseg : 0 < v.segsize) (hsize : 0 < size)
     (hlen : off + size ≤ v.content.length) :
-    read v off (some size) = .ok (slice v.content off (off + size)) := by
+    read k v off (some size) = .ok (slice v.content off (off + size)) := by
   simp only [read, Nat.ne_of_gt hsize, if_false]
   rw [if_neg (by simp; omega)]
   congr 1
-  have := readSegs_spec v.content v.segsize off size hseg hsize hlen
+  have := readSegs_spec v.content v.segsize k off size hseg hsize hlen
     ((off + size - 1) / v.segsize + 1 - off / v.segsize) (off / v.segsize) (Nat.le_refl _)
     (by have : off / v.segsize ≤ (off + size - 1) / v.segsize := Nat.div_le_div_right (by omega)
         omega)
   rw [this]
   obtain ⟨s1, _, _⟩ := div_bounds off v.segsize hseg
   congr 1; omega
+
+
+/-- a version published by a client has a positive segment size unless it is empty -/
+theorem wf_segsize_pos (cfg : Cfg) (v : Version) (hk : 0 < cfg.k) (hm : 0 < cfg.maxSeg) (wf : WF cfg v)
+    (hpos : 0 < v.content.length) : 0 < v.segsize := by
+  rw [wf]
+  cases v.fmt with
+  | sdmf => have := le_nextMultiple v.content.length cfg.k hk; simp only [pubSegsize]; omega
+  | mdmf => have := le_nextMultiple cfg.maxSeg cfg.k hk; simp only [pubSegsize]; omega
+
+/-- every state of a history is a client-published version -/
+theorem run_wf (cfg : Cfg) (hk : 0 < cfg.k) (hm : 0 < cfg.maxSeg) :
+    ∀ (ops : List Op) (st : Option Version), (∀ v, st = some v → WF cfg v) →
+      ∀ r ∈ run cfg st ops, ∀ v, r.2 = some v → WF cfg v := by
+  intro ops
+  induction ops with
+  | nil => intro st _ r hr; simp [run] at hr
+  | cons op ops ih =>
+    intro st wf r hr
+    simp only [run] at hr
+    cases hs : step cfg st op with
+    | error e =>
+      rw [hs] at hr
+      rcases List.mem_cons.mp hr with h | h
+      · subst h; exact wf
+      · exact ih st wf r h
+    | ok st' =>
+      rw [hs] at hr
+      obtain ⟨_, h2⟩ := step_spec cfg st st' op hk hm wf hs
+      rcases List.mem_cons.mp hr with h | h
+      · subst h; exact h2
+      · exact ih st' h2 r h
 
 end Tahoe.Mutable.Content
